@@ -344,6 +344,48 @@ def run_bq(devs, budgets, seq=None, cuts=None, style="hsms"):
     return res
 
 
+def run_early(devs, budgets, seq=None, cuts=None):
+    """The peer's first segments (Select.req and the frames after it) are already on their way while the connection is being accepted:
+    every schedule with <= K delays of the accepting thread, the connection's receiver thread and the protocol threads."""
+    box = {}
+    stream = e37.control(e37.SELECT_REQ, 0x7001) + b"".join(F(k, s) for k, s in seq)
+
+    def driver(s):
+        ep = hh.Endpoint(active=False)
+        got = []
+        ep.protocol.events.message_received += lambda d: got.append((d["message"].header.system, d["message"].header.stream,
+                                                                     d["message"].header.function, bytes(d["message"].data).hex()))
+        ep.protocol.enable()
+        ep.conn.peer_connect()
+        for seg in gen.split_at(stream, cuts):
+            ep.conn.peer_send(seg)
+        s.settle()
+        frames = ep.pump()
+        box["got"] = got
+        box["replies"] = [(f["stype"], f["system"]) for f in frames if f["stype"] != 0]
+        box["state"] = ep.state()
+        box["rxbuf"] = len(getattr(ep.protocol, "_receive_buffer", b""))
+
+    sched = vrt.run(driver, devs, budgets, max_steps=400000, max_time=1e6, line_points=True)
+    res = {"trace": sched.trace, "v": []}
+    case = {"seq": seq, "cuts": cuts, "part": "early"}
+    if sched.harness_failure or sched.driver_exception:
+        res["harness"] = (sched.harness_failure or sched.driver_exception)[-1000:]
+        res["obs"] = None
+        return res
+    if sched.outcome != "done":
+        res["v"].append((f"C04|early-segments|execution-{sched.outcome}", {"case": case, "info": sched.deadlock_info}))
+        res["obs"] = sched.outcome
+        return res
+    want_d, want_r = expected(seq)
+    want_r = [(e37.SELECT_RSP, 0x7001)] + want_r
+    res["obs"] = {"delivered": len(box["got"]), "replies": len(box["replies"]), "state": box["state"]}
+    if box["got"] != want_d or box["replies"] != want_r or box["rxbuf"]:
+        res["v"].append(("C04|early-segments|frames-sent-while-the-connection-was-accepted-not-all-handled",
+                         {"case": case, "got": box["got"], "replies": box["replies"], "want": want_d, "want_replies": want_r, "left": box["rxbuf"], "state": box["state"]}))
+    return res
+
+
 def check_two_endpoints(case):
     """Two protocol objects in one process, each fed its own stream, segments alternating: each delivers exactly its own messages
     (nothing of the receive path may be shared between objects)."""
@@ -467,6 +509,15 @@ def run(ctx):
                 ctx.exhaustive = False
             if ctx.out_of_time():
                 break
+    for seq in (SEQS[3], SEQS[5]):
+        for cuts in ([], [14], [20]):
+            st = explore.explore(ctx, run_early, {"sched": k}, f"c04-early-{len(seq)}-{cuts}", opts={"seq": seq, "cuts": cuts})
+            sparts.append({"early": True, "frames": len(seq), "cuts": cuts, "executions": st["executions"], "outcomes": st["distinct_outcomes"],
+                           "levels_completed": st["levels_completed"]})
+            trans += st["executions"]
+            states += st["distinct_outcomes"]
+            if st["levels_completed"] < k:
+                ctx.exhaustive = False
     ctx.setcov("coalesced_explorations", sparts)
     # (c) the queue alone, instruction granularity (a second tool pass: the region above stays line-traced for the parts above)
     fns, _ = vrt.resolve(BQ_REGION)
@@ -523,6 +574,12 @@ def replay(ctx, detail):
         vrt.trace_functions(fns, instructions=True)
         devs = {int(k): v for k, v in case.get("devs", {}).items()}
         r = run_bq(devs, case.get("budgets", {}), seq=[tuple(x) for x in case["seq"]], cuts=case["cuts"], style=case["style"])
+        print("replayed:", r.get("obs"))
+        res = r["v"]
+    elif case.get("part") == "early":
+        hh.trace_region(REGION)
+        devs = {int(k): v for k, v in case.get("devs", {}).items()}
+        r = run_early(devs, case.get("budgets", {}), seq=[tuple(x) for x in case["seq"]], cuts=case["cuts"])
         print("replayed:", r.get("obs"))
         res = r["v"]
     elif case.get("part") == "stream":
